@@ -94,7 +94,7 @@ def run(tier, t0):
     R = 4 if tier == 'quick' else 5
     tasks = []
     for r in range(0, R + 1):
-        for ch in common.chunks(rm.descendants((), r), 12):
+        for ch in common.chunks(rm.interleaved(rm.descendants((), r)), 12):
             tasks.append((work_paths, ch))
     deep = []
     for r in range(R + 1, 30):
